@@ -68,19 +68,18 @@ func toEnvVarMap(s interface{}) (map[interface{}]interface{}, error) {
 	}
 	m := map[interface{}]interface{}{}
 	for _, v := range envVars {
-		kv := strings.Split(v, "=")
-		if len(kv) == 2 {
-			m[kv[0]] = kv[1]
-		}
+		// the key ends at the first '='; the whole entry is kept so that values containing '='
+		// and entries without '=' survive the merge unchanged
+		k, _, _ := strings.Cut(v, "=")
+		m[k] = v
 	}
 	return m, nil
 }
 
 func toEnvVarSlice(dst reflect.Value, m map[interface{}]interface{}) error {
 	var s types.Environment
-	for k, v := range m {
-		kv := fmt.Sprintf("%s=%s", k.(string), v.(string))
-		s = append(s, kv)
+	for _, v := range m {
+		s = append(s, v.(string))
 	}
 	sort.Strings(s)
 	dst.Set(reflect.ValueOf(s))
